@@ -551,7 +551,11 @@ class Exec:
                 self.io.append(("read", obj.name, off, n))
             if isinstance(ct, TVec):
                 if obj.name in self.param_objs and not getattr(self, "explicit_lanes", False):
-                    raise TranslateError("whole-vector load from a caller's buffer in lane-generic mode")
+                    # lane-generic mode has no layout for a caller's buffer of vectors: the value is a poison variable.
+                    # (It is harmless where the piece's inputs are re-introduced at the loop head; if it reached a
+                    # generated definition, that definition would not compile - a broken obligation, never a wrong one.)
+                    self.poison_n = getattr(self, "poison_n", 0) + 1
+                    return Val(ct, var("zzpoison%d" % self.poison_n, 8 * ct.el.size()))
                 if TVec.GENERIC:
                     return Val(ct, obj.read(off, ct.el.size(), self.W))          # the element of the generic lane
                 elsz = ct.el.size()
